@@ -120,7 +120,7 @@ fam(r"crrl::(p256|secp256k1)::PublicKey::verify_hash", ["C08"], [
     g(r"elemcmp:sig\[\(\(len\(sig\) Shr 1\) Add i\)\] Ne 0", "surplus leading bytes of s are zero"),
     g(call(r"\w+::decode32", r"bswap\(local:\w+\)", r"(PublicKey|p256|secp256k1)::\w+"), "r and s are decoded strictly (below n)"),
     g(call(r"\w+::iszero", r"res:decode32\(bswap\(local:\w+\)\)", r"(PublicKey|p256|secp256k1)::\w+"), "r != 0 and s != 0"),
-    g(call(r"\w+::equals", r"res:decode32" + ANY, r"(PublicKey|p256|secp256k1)::\w+"), "x(R) mod n == r"),
+    g(call(r"\w+::equals", ANY + r"res:decode_reduce\(bswap" + ANY, r"(PublicKey|p256|secp256k1)::\w+"), "x(R), reduced mod n through decode_reduce, is compared with r"),
 ])
 fam(r"crrl::(p256|secp256k1)::PrivateKey::decode", ["C08"], [
     g(len_eq("buf", 32), "private key length 32"),
